@@ -215,8 +215,9 @@ pub enum Op {
     Eq(Vec<E>),
     CloneSwap,
     CloneCheck,
-    /// fault injection: run `op` with the k-th priority comparison (`cmp = true`) or the k-th user callback panicking
-    Crash { cmp: bool, k: u64, op: Box<Op> },
+    /// fault injection: run `op` with the k-th priority comparison (`cmp = 1`), the k-th user callback (`0`) or the
+    /// k-th `Hash`/`Eq` call on an item (`2`) panicking
+    Crash { cmp: u8, k: u64, op: Box<Op> },
 }
 
 fn es(xs: &[E]) -> String {
@@ -325,7 +326,7 @@ impl Op {
         use Op::*;
         let n = self.name();
         match self {
-            Crash { cmp, k, op } => format!("!{}{} {}", if *cmp { "cmp" } else { "cb" }, k, op.line()),
+            Crash { cmp, k, op } => format!("!{}{} {}", match *cmp { 1 => "cmp", 0 => "cb", _ => "hk" }, k, op.line()),
             Push(e) | PushIncrease(e) | PushDecrease(e) => format!("{} {} {} {}", n, e.0, e.1, e.2),
             ChangePriority(k, p) | ChangePriorityBy(k, p) => format!("{} {} {}", n, k, p),
             GetPriority(k) | Get(k) | Remove(k) => format!("{} {}", n, k),
@@ -354,7 +355,7 @@ impl Op {
         let line = line.trim();
         if let Some(rest) = line.strip_prefix('!') {
             let (head, tail) = rest.split_once(' ').ok_or("bad crash op")?;
-            let (cmp, num) = if let Some(x) = head.strip_prefix("cmp") { (true, x) } else if let Some(x) = head.strip_prefix("cb") { (false, x) } else { return Err("bad crash prefix".into()) };
+            let (cmp, num) = if let Some(x) = head.strip_prefix("cmp") { (1u8, x) } else if let Some(x) = head.strip_prefix("cb") { (0u8, x) } else if let Some(x) = head.strip_prefix("hk") { (2u8, x) } else { return Err("bad crash prefix".into()) };
             let k: u64 = num.parse().map_err(|e| format!("{:?}", e))?;
             return Ok(Op::Crash { cmp, k, op: Box::new(Op::parse(tail)?) });
         }
@@ -607,16 +608,17 @@ pub fn apply<H: BuildHasher + Default + Clone>(q: &mut AnyQ<H>, op: &Op, lk: Loo
     match op {
         Crash { cmp, k, op } => {
             // arm the fuse relative to the current counters; the panic (if it fires) unwinds out of `apply`
-            if *cmp {
-                FUSE.with(|f| f.set(CMP.with(|c| c.get()) + *k));
-            } else {
-                CBFUSE.with(|f| f.set(CBCOUNT.with(|c| c.get()) + *k));
+            match *cmp {
+                1 => FUSE.with(|f| f.set(CMP.with(|c| c.get()) + *k)),
+                0 => CBFUSE.with(|f| f.set(CBCOUNT.with(|c| c.get()) + *k)),
+                _ => HKFUSE.with(|f| f.set(HKCOUNT.with(|c| c.get()) + *k)),
             }
             struct Disarm;
             impl Drop for Disarm {
                 fn drop(&mut self) {
                     FUSE.with(|f| f.set(0));
                     CBFUSE.with(|f| f.set(0));
+                    HKFUSE.with(|f| f.set(0));
                 }
             }
             let _d = Disarm;
@@ -793,14 +795,22 @@ pub fn apply<H: BuildHasher + Default + Clone>(q: &mut AnyQ<H>, op: &Op, lk: Loo
         Append(xs) => match q {
             AnyQ::Pq(x) => {
                 let mut o: PriorityQueue<SItem, Pri, H> = PriorityQueue::with_default_hasher();
+                // building the other queue is not part of the operation under test: an armed comparison fuse is
+                // suspended while it is built and re-armed relative to the comparisons it consumed
+                let (f0, c0) = (FUSE.with(|f| f.replace(0)), cmp_count());
                 for (i, p) in mk(xs) { o.push(i, p); }
+                if f0 != 0 { FUSE.with(|f| f.set(f0)); }
+                CMP.with(|c| c.set(c0));   // comparisons spent building the other queue are not part of `append`
                 x.append(&mut o);
                 let (h, qp, _, m) = o.verif_snapshot();
                 format!("olen {} omap {} oh {} oq {}", o.len(), m, h.len(), qp.len())
             }
             AnyQ::Dpq(x) => {
                 let mut o: DoublePriorityQueue<SItem, Pri, H> = DoublePriorityQueue::with_default_hasher();
+                let (f0, c0) = (FUSE.with(|f| f.replace(0)), cmp_count());
                 for (i, p) in mk(xs) { o.push(i, p); }
+                if f0 != 0 { FUSE.with(|f| f.set(f0)); }
+                CMP.with(|c| c.set(c0));   // comparisons spent building the other queue are not part of `append`
                 x.append(&mut o);
                 let (h, qp, _, m) = o.verif_snapshot();
                 format!("olen {} omap {} oh {} oq {}", o.len(), m, h.len(), qp.len())
